@@ -1438,3 +1438,61 @@ func c14Clamp(e *Env) {
 	})
 	r.Floor(rule, n, 3, "fills of the caller's buffer in bodyStream.Read outside the chunked branch")
 }
+
+// C18.closes — once shutdown began, every way out of Shutdown has shut the transport down.
+func c18Closes(e *Env) {
+	const rule = "C18.closes"
+	w, r := e.W, e.R
+	r.Explainf("C18.closes: `no new connection is accepted afterwards` needs the listener closed, and that only happens in the transport's Shutdown. In Engine.Shutdown no return statement after the status transition (its first two statements) comes before the call of the transport's Shutdown: an error return on the way there (a registry that fails to deregister) leaves the engine marked as shutting down with its listener open — connections are still accepted and served, nothing drains them, and a second Shutdown is refused because the status is no longer `running`.")
+	sd := w.Func("pkg/route", "Engine", "Shutdown")
+	if sd == nil || sd.Decl.Body == nil {
+		r.Anchor(rule, "route.Engine.Shutdown")
+		return
+	}
+	info := sd.Pkg.TypesInfo
+	fname := w.FuncName(sd.Obj)
+	par := parents(sd.Decl)
+	var tcall *ast.CallExpr
+	ast.Inspect(sd.Decl.Body, func(nd ast.Node) bool {
+		if c, ok := nd.(*ast.CallExpr); ok && tcall == nil && !inFuncLit(par, c) {
+			if f := calleeOf(info, c); f != nil && f.Name() == "Shutdown" && f.Pkg() != nil && w.RelPkg(f.Pkg()) == "pkg/network" {
+				tcall = c
+			}
+		}
+		return true
+	})
+	if tcall == nil {
+		r.Anchor(rule, fname+": call of network.Transporter.Shutdown")
+		return
+	}
+	from := sd.Decl.Body.Pos()
+	if len(sd.Decl.Body.List) >= 2 {
+		from = sd.Decl.Body.List[1].End()
+	}
+	k := 0
+	ast.Inspect(sd.Decl.Body, func(nd ast.Node) bool {
+		rs, ok := nd.(*ast.ReturnStmt)
+		if !ok || inFuncLit(par, rs) || rs.Pos() < from || rs.Pos() > tcall.Pos() {
+			return true
+		}
+		k++
+		// name the failing step: the call whose outcome guards this return
+		step := fmt.Sprintf("#%d", k)
+		if is, ok := enclosing(par, rs, func(m ast.Node) bool { _, ok := m.(*ast.IfStmt); return ok }).(*ast.IfStmt); ok {
+			ast.Inspect(is, func(m ast.Node) bool {
+				if c, ok := m.(*ast.CallExpr); ok && c.Pos() < rs.Pos() && strings.HasPrefix(step, "#") {
+					if f := calleeOf(info, c); f != nil && f.Pkg() != nil && !strings.Contains(f.Pkg().Path(), "hlog") {
+						step = f.Name()
+					}
+				}
+				return true
+			})
+		}
+		r.Fail(rule, fname+":return-before-transport-shutdown:"+step, w.Pos(rs.Pos()), "no return between the status transition and the transport's Shutdown",
+			"`"+nodeString(rs)+"` leaves Shutdown after the engine was marked as shutting down and before `"+types.ExprString(tcall)+"`: the listener stays open — new connections are accepted and served after Shutdown returned, and a second Shutdown reports `not running`")
+		return true
+	})
+	if k == 0 {
+		r.OK(rule, fname+":transport-shutdown-on-every-exit", w.Pos(tcall.Pos()), "no return between the status transition and the transport's Shutdown")
+	}
+}
